@@ -67,11 +67,11 @@ ITS_NOTE = ("The ITS theorems are about the world-level model (Axelar/Model/ItsW
             "delivers them step by step), debug VM incl. ESDT system-contract stand-ins for issue / getTokenProperties chosen by the schedule.")
 
 CLAIMS.update({
-    "C04": ("Lean 4 theorems: a release of tokens by processInterchainTransfer (no data) implies a true validateMessage for exactly (source chain, id, source address, payload hash) addressed to the service, which executes the approval; AT MOST ONCE OVER EVERY SCHEDULE: a release leaves the message executed at the end of its transaction, executed is absorbing under every operation of the world model (transactions to any contract, deliveries, callbacks: Proofs/GwHistory.step_life by induction over operation lists), and for an executed message the release step fails; execute refuses untrusted sources; unknown token id / malformed recipient / unknown message type fail; differential run of the real ITS+gateway+token manager vs the compiled model + Lean judge on every inbound execute",
-            "Machine-checked proofs for all states, callers and payloads of the gating of an inbound release on gateway validation and trusted source, and of the failure cases; at-most-once is proved over all histories of the composed world (no_second_release), not only of the gateway alone. The real contracts are run against the model on approved / unapproved / replayed / wrong-source / unknown-token / malformed messages, hub-wrapped and direct, and judged by the property (recipient balance delta = payload amount, message executed, replays fail).",
+    "C04": ("Lean 4 theorems: a release of tokens by processInterchainTransfer (no data) implies a true validateMessage for exactly (source chain, id, source address, payload hash) addressed to the service, which executes the approval; AT MOST ONCE OVER EVERY SCHEDULE: a release leaves the message executed at the end of its transaction, executed is absorbing under every operation of the world model (transactions to any contract, deliveries, callbacks: Proofs/GwHistory.step_life by induction over operation lists), and for an executed message the release step fails; execute refuses untrusted sources; unknown token id / malformed recipient / unknown message type fail; EXACT RELEASE (release_pays_exactly_the_amount): a ledger equation over EVERY account and EVERY asset — the recipient gains exactly the payload amount of the manager's token, a lock/unlock manager loses exactly that, a mint/burn manager mints it, nothing else moves; differential run of the real ITS+gateway+token manager vs the compiled model + Lean judge on every inbound execute",
+            "Machine-checked proofs for all states, callers and payloads of the gating of an inbound release on gateway validation and trusted source, and of the failure cases; at-most-once is proved over all histories of the composed world (no_second_release), not only of the gateway alone; the exact amount / recipient / custody clause is a theorem too (ledger equations of Proofs/Ledger + ItsLedger through gateway validation and the manager's giveToken). The real contracts are run against the model on approved / unapproved / replayed / wrong-source / unknown-token / malformed messages, hub-wrapped and direct, and judged by the property (recipient balance delta = payload amount, message executed, replays fail).",
             ITS_NOTE, "DESIGN.md §3 C04"),
-    "C05": ("Lean 4 theorems: get_transfer_and_gas_tokens returns exactly the three shapes of the property and conserves value (transfer + gas = attached); transmit refuses zero amount / empty destination / untrusted chain; the emitted payload is the ABI encoding of exactly (type, token id, sender, destination, amount, data) (round trip by C06/C07); for EGLD / zero gas the complete event list of a successful transmission is proved (at most one gas-paid event with the sender as refund address, exactly one gateway contract-call event to the destination the trusted table prescribes carrying the routed payload and its hash, then the service's transfer event) together with the EGLD movement service -> gas service of exactly the gas value (outbound_message_events); differential run (all balances compared after every step) + Lean judge on every outbound transfer of the real ITS",
-            "Machine-checked proofs of the payment split (all payment lists, all gas values), of the refusal cases and of the payload contents; conservation across sender / token manager / gas service / service is decided on the real contracts by comparing every account's balances with the model after each operation and by the judge (sender delta = payments, custody or burn = transfer amount, one contract_call event with the payload hash, gas forwarded with sender as refund address, service balances unchanged).",
+    "C05": ("Lean 4 theorems: get_transfer_and_gas_tokens returns exactly the three shapes of the property and conserves value (transfer + gas = attached); transmit refuses zero amount / empty destination / untrusted chain; the emitted payload is the ABI encoding of exactly (type, token id, sender, destination, amount, data) (round trip by C06/C07); for EGLD / zero gas the complete event list of a successful transmission is proved (at most one gas-paid event with the sender as refund address, exactly one gateway contract-call event to the destination the trusted table prescribes carrying the routed payload and its hash, then the service's transfer event) together with the EGLD movement service -> gas service of exactly the gas value (outbound_message_events); VALUE CONSERVATION OF THE WHOLE TRANSACTION for every payment shape and gas token (outbound_transaction_ledger: the sender loses exactly the attached payments, the manager receives — or burns — exactly the transfer amount, the gas service exactly the gas value, for every account and asset; service_balances_unchanged); differential run (all balances compared after every step) + Lean judge on every outbound transfer of the real ITS",
+            "Machine-checked proofs of the payment split (all payment lists, all gas values), of the refusal cases and of the payload contents; conservation across sender / token manager / gas service / service is proved as a ledger equation over all accounts and assets (ESDT and EGLD, custody and burn kinds) and, in addition, decided on the real contracts by comparing every account's balances with the model after each operation and by the judge (sender delta = payments, custody or burn = transfer amount, one contract_call event with the payload hash, gas forwarded with sender as refund address, service balances unchanged).",
             ITS_NOTE, "DESIGN.md §3 C05"),
     "C08": ("Lean 4 theorems: a locked (in-flight) message cannot start another delivery; starting needs the exact gateway approval and sets the lock; OVER EVERY SCHEDULE the lock is cleared by nothing but the callback of that very delivery (frame of the whole dispatcher for the lock table, Proofs/ItsLock.step_lock), a successful delivery ends with the message executed, and an executed message can never start again (no schedule delivers twice); exact shape of the success and failure callbacks; REFUTATION: if the token manager rejects the take-back (flow limit) the failure callback fails and the tokens stay in the service (finding F1), with the part that holds proved as _partial; differential run with execute / destination call / callback scheduled separately among other transactions + Lean judge on the real contracts",
             "Machine-checked proofs of the single-shot lock and of the callback effects for all states; the full-strength 'never left behind in the service' is false on the unchanged code (known finding F1: flow-limit rejection of the take-back, replayed on the real contracts from corpus/C08 on every run). The real ITS, gateway and token manager are driven through all three steps with other transactions (including second executes of the same message, flow-limit changes, pauses) in between and judged on deliveries, custody and message state.",
@@ -85,8 +85,8 @@ CLAIMS.update({
     "C17": ("Lean 4 theorems: both getTokenProperties callbacks return the whole gas value to the original caller when the query failed or the token is not fungible; exact refund; a successful metadata callback moves exactly the gas value out of the service, to the caller or to the gas service, nobody else's EGLD balance changes and the service keeps nothing (EGLD balance lemmas through payments, sends and sub-calls: Proofs/Balances); REFUTATION: when the callback itself fails (hub / route removed in between, or payload refused) the gas value stays in the service (finding F2, two call sites), with the part that holds proved as _partial; differential run with the callbacks scheduled separately + Lean judge 'service holds nothing of the user value after the last step' on the real contracts",
             "Machine-checked proofs of the refund and forward branches of the two asynchronous flows that carry user EGLD, and proofs that on the unchanged code a failing callback strands that EGLD (known findings F2a/F2b, replayed on the real contracts from corpus/C17 on every run). All user operations of the real service are run to completion under generated schedules and the service's balances are compared with their values before the operation.",
             ITS_NOTE, "DESIGN.md §3 C17, §4 F2"),
-    "C18": ("Lean 4 theorems: a token manager's recorded token survives every endpoint call and every later issuance callback (after fix aeb366e); the issuance callback records exactly the returned identifier or nothing; step 1 of an inbound deploy message reads exactly the approval for its fields and leaves the gateway unchanged, step 2 consumes it, an executed message drives neither step, and executed is absorbing over every schedule (one_issuance_per_message); zero-supply deployment without minter, or with the service as minter, is refused; differential run with issue calls / callbacks scheduled separately + Lean judge on the real ITS and token manager",
-            "Machine-checked proofs of 'never replaced' over a complete case analysis of the token-manager endpoints and its callback, of the two-step use of the gateway approval, and of the refusal cases; the two-issuances-in-flight defect found by this check (F4) was repaired in /repo (fix: aeb366e) and its witness corpus/C18 runs first on every run. The real contracts are driven through the multi-call deployment flows (inbound and local) with system-contract outcomes chosen by the schedule and judged on approvals consumed, tokens recorded, supply minted and roles handed over.",
+    "C18": ("Lean 4 theorems: a token manager's recorded token survives every endpoint call and every later issuance callback (after fix aeb366e); the issuance callback records exactly the returned identifier or nothing; step 1 of an inbound deploy message reads exactly the approval for its fields and leaves the gateway unchanged, step 2 consumes it, an executed message drives neither step, and executed is absorbing over every schedule (one_issuance_per_message); zero-supply deployment without minter, or with the service as minter (any supply, after fix b2e025b), is refused; THE MINT STEP (mint_step_mints_the_supply_and_hands_over, mint_step_cannot_be_repeated): the deployer receives exactly the requested supply and no other balance changes, the service ends with no role on the manager and the nominated minter with all three, and the step cannot be repeated; differential run with issue calls / callbacks scheduled separately + Lean judge on the real ITS and token manager",
+            "Machine-checked proofs of 'never replaced' over a complete case analysis of the token-manager endpoints and its callback, of the two-step use of the gateway approval, and of the refusal cases; the two-issuances-in-flight defect found by this check (F4) was repaired in /repo (fix: aeb366e); proving mint-exactly-once exposed a second defect (F7: with the service nominated as minter the mint step could be repeated without bound), repaired by fix: b2e025b; both witnesses in corpus/C18 run first on every run. The real contracts are driven through the multi-call deployment flows (inbound and local) with system-contract outcomes chosen by the schedule and judged on approvals consumed, tokens recorded, supply minted and roles handed over.",
             ITS_NOTE, "DESIGN.md §3 C18, §4 F4"),
     "C19": ("Lean 4 theorems: use_deploy_approval succeeds iff an approval is present for exactly (minter, token id, destination chain) and equals the hash of the requested destination minter, and then clears it (single use); approval-key binding (collision-or-equal); revoke clears only the caller's own key; approve needs a caller the manager reports as minter (never the service itself) and a trusted chain; no local minter ⇒ no destination minter; OVER EVERY SCHEDULE an approval entry is only ever written under a key derived from the address of the account that makes the call, or cleared (Proofs/ItsApprovals.step_approvals); differential run + Lean judge on approve / revoke / deployRemote…WithMinter of the real ITS",
             "Machine-checked proofs for all states of the exactness and single use of destination-minter approvals and of key binding; the real service is run against the model over approve / revoke / deploy sequences by minters, former minters, non-minters and the service address, with matching and non-matching chains and minters, and judged by the rules of the property.",
